@@ -80,8 +80,16 @@ def c14 : List String := Id.run do
     out := out ++ [s!"the crate has dependencies: {cargoDependencies}"]
   return out
 
+def c08 : List String := Id.run do
+  let mut out : List String := []
+  for r in stateItems do
+    if !(Cfavml.Spec.builds.all (fun b => !(r.cfg.all (·.eval b)))) then
+      out := out ++ [s!"state that outlives a call is compiled into a real build (a result can then depend on earlier calls, not only on the logical inputs): {repr r}"]
+  return out
+
 def main (args : List String) : IO UInt32 := do
   let ws := match args with
+    | ["C08"] => c08
     | ["C09"] => c09
     | ["C10"] => c10
     | ["C11"] => c11
